@@ -116,6 +116,54 @@ Theorem C07_handler_sees_exactly_the_request :
   stream s0 = next_input_stream (w_role pw) None /\ output_buffer s0 = [] /\ stream_buffer s0 = [].
 Proof. exact handler_sees_request. Qed.
 
+(* 'exactly one handler invocation': one iteration of Token::run — while no shutdown was requested it parses
+   ONE request, runs the handler ONCE on it, closes it ONCE when the handler returned a status (a handler Err
+   ends the connection without close unless it is the client's abort), and continues only with the parser a
+   successful close handed back *)
+Theorem C07_one_handler_call_per_request :
+  forall (norm : bytes -> bytes) (maxc : N) (fuel : nat) (p : parser) (scripts : list (list N))
+    (served : nat) (w : world),
+  stopped w = false ->
+  run_loop norm maxc (S fuel) p scripts served w =
+  match parse_request norm maxc (io_fuel w 0) p [] w with
+  | Ok (inl s0) w' =>
+      let rq := sreq s0 in
+      let r0 :=
+        {|
+          rsp := s0;
+          rwriteable := len (role_input_streams (r_role rq)) <=? 1;
+          rlock := false;
+          raborted := false
+        |} in
+      let env := EnvCanon.canon_env (r_env rq) in
+      let w1 :=
+        fold_left (fun (w0 : world) (p0 : list N * list N) => w_ev (w_ev w0 (fst p0)) (snd p0)) env
+          (w_ev (w_ev w' [100; epoch w'])
+             [r_role rq; r_flags rq; len env; stream_code (stream s0); if rwriteable r0 then 1 else 0]) in
+      let script := nth served scripts (last scripts []) in
+      match run_handler maxc (length script + 2) script r0 w1 with
+      | Ok (inl (d, c), r1) w2 =>
+          match do_close maxc r1 d c w2 with
+          | Ok (inl rp) w3 => run_loop norm maxc fuel rp scripts (S served) w3
+          | Ok (inr _) w3 => (ORet, w3)
+          | Halt o w3 => (o, w3)
+          end
+      | Ok (inr k, r1) w2 =>
+          if (k =? EK_Aborted) && raborted r1
+          then
+           match do_close maxc r1 EXIT_Complete EXIT_ABORT_CODE w2 with
+           | Ok (inl rp) w3 => run_loop norm maxc fuel rp scripts (S served) w3
+           | Ok (inr _) w3 => (ORet, w3)
+           | Halt o w3 => (o, w3)
+           end
+          else (ORet, w2)
+      | Halt o w2 => (o, w2)
+      end
+  | Ok (inr _) w' => (ORet, w')
+  | Halt o w' => (o, w')
+  end.
+Proof. exact run_loop_iteration. Qed.
+
 (* non-vacuity of C07_handler_sees_exactly_the_request: a concrete connection (B = 160, a GetValues junk record inside
    the preamble, leftover = 5 bytes, two client segments, Pending reads and writes) satisfies every hypothesis *)
 Example C07_handler_sees_example : forall s0 w', lp_run = Ok (inl s0) w' ->
